@@ -107,6 +107,17 @@ CHECKS = {
         'outside': ['governance voting', 'go-ethereum\'s standard precompiles', 'genesis flag combinations (C18 harnesses)'],
         'assumptions': TX_ASSUMPTIONS,
     },
+    'C14': {
+        'pkgs': ['./zzverif/hidx'],
+        'harnesses': [
+            {'fn': P + 'zzverif/hidx.H_C14_1_IndexKernel', 'must_reach': ['some-eth-tx-indexed']},
+        ],
+        'level_text': 'Bounded exhaustive symbolic execution of the real indexer kernel (KVIndexer.IndexBlock, GetByTxHash, GetByBlockAndIndex, LastIndexedBlock, TxHashKey/TxIndexKey, rpctypes.ParseTxResult, TxWasDroppedPreAnteHandleDueToBlockGasExcess, IsEthereumTx) over a block of 1-3 transactions of 6 kinds with the events the application emits, optionally followed by a later block: every Ethereum transaction that reached the ante handler is found by hash and by (height, index), both lookups agree, indices follow block order over exactly those transactions, block position and failed flag are right, nothing else is indexed, unknown hash / out-of-range index are errors, re-indexing a block (also after a later one) leaves the database byte-for-byte unchanged.',
+        'level_note': 'Narrow claim: only the indexer kernel. The JSON-RPC backend (rpc/backend: formatting over CometBFT RPC clients) and the indexer service with its goroutines, timers and crash/restart schedules are outside the engine (no concurrency, no I/O); convergence after a crash rests on the two facts shown here: a block is written in one atomic batch and indexing is idempotent.',
+        'bounds': ['1-3 transactions per block, 6 kinds each; 2 blocks', 'database: finite ordered map with atomic batch (native replay: cosmos-db MemDB)'],
+        'outside': ['rpc/backend JSON-RPC views', 'EVMIndexerService (goroutines, restart schedules)', 'real protobuf transaction decoding (registry of decoded transactions)'],
+        'assumptions': COMMON_ASSUMPTIONS + ['TxDecoder returns the registered sdk.Tx for registered bytes and an error otherwise; tx.Hash() returns the registered hash (native replay: really signed transactions)'],
+    },
     'C15': {
         'pkgs': ['./zzverif/hsdb'],
         'harnesses': [
